@@ -570,7 +570,7 @@ def _ctor_site(src, fn, kind, policy):
         ens.append(('C09:the_budget_is_enforced_%s' % ('over_the_whole_input' if policy == 'AllContent' else 'per_document_by_the_document_iterator'),
                     'r.budget is Some ==> r.budget->Some_0.policy == EnforcingPolicy::%s' % policy))
     return dict(src=src, path='fn ' + fn, id=fn + '#event_source', fragment=frag, fragment_flags='S', wrapper=wrap,
-                props=['C09'], optional=True, ensures=ens)
+                props=['C09', 'C11', 'C05'], optional=True, ensures=ens)
 ITEMS += [
     _ctor_site('src/lib.rs', 'from_str_with_options_impl', 'str', 'AllContent'),
     _ctor_site('src/lib.rs', 'from_str_with_options_and_path_recorder', 'str', 'AllContent'),
